@@ -18,7 +18,8 @@ META = {
              "Non-trivial: >=2 extra-axis positions in total and pairwise different extra extents; distinct by content hash"),
     "require": {t: ["class:axes=3", "class:multi_dims>=2", "cube:ccube", "cube:xcube", "agg:covariance", "agg:count",
                     "agg:quantile", "blocks_compared", "sliced_variant_compared", "class:dims_with_equal_extra_shape",
-                    "class:xcube_layout=F", "class:xcube_layout=strided", "class:entry_removed_in_place_then_recomputed"] for t in ("quick", "thorough")},
+                    "class:xcube_layout=F", "class:xcube_layout=strided", "class:entry_removed_in_place_then_recomputed",
+                    "class:pool_engaged_by_the_cube_itself", "class:xcube_pool_engaged_by_the_cube_itself"] for t in ("quick", "thorough")},
     "assumptions": ["blocks are compared with the 1-D cube of the same library (the property relates the two); "
                     "values within 1e-9 of the data magnitude, missing cells exactly"],
 }
@@ -26,8 +27,10 @@ META = {
 
 def shards(tier):
     if tier == "quick":
-        return [{"label": "cubes%d" % i, "n": 300} for i in range(14)]
-    return [{"label": "cubes%d" % i, "n": 8000} for i in range(16)]
+        return [{"label": "cubes%d" % i, "n": 300} for i in range(13)] + \
+               [{"label": "autopool-ccube", "kind": "autopool_ccube", "n": 12}, {"label": "autopool-xcube", "kind": "autopool_xcube", "mem_gib": 14}]
+    return [{"label": "cubes%d" % i, "n": 8000} for i in range(14)] + \
+           [{"label": "autopool-ccube", "kind": "autopool_ccube", "n": 400}, {"label": "autopool-xcube", "kind": "autopool_xcube", "mem_gib": 14}]
 
 
 def cases(ctx):
@@ -43,6 +46,100 @@ def cases(ctx):
         else:
             c.update(aggr.xonly_inputs(rng, c["n"], c["agg"]))
         yield c
+
+
+def autopool_ccube(ctx):
+    """Sparse index cubes of 2^28..2^31 rows with extra axes: the cube engages its pool by itself.
+    Blocks of the count are compared with the count over the 1-D slices (each a serial cube)."""
+    import catii
+    from .c02 import sparse_case
+
+    rng = ctx.rng
+    for _ in range(ctx.shard["n"]):
+        for _try in range(50):
+            case = sparse_case(rng)
+            if any(sp["extra"] for sp in case["sparse"]):
+                break
+        n = case["n"]
+        specs = case["sparse"]
+
+        def index_of(sp, pos=None):
+            entries = {}
+            for (cell, v) in sp["cells"]:
+                if pos is None:
+                    entries.setdefault((v,) + tuple(cell[1:]), []).append(cell[0])
+                elif tuple(cell[1:]) == tuple(pos):
+                    entries.setdefault((v,), []).append(cell[0])
+            entries = {k: numpy.array(sorted(set(r)), dtype=numpy.uint32) for k, r in entries.items()}
+            return catii.iindex(entries, sp["common"], (n,) + (tuple(sp["extra"]) if pos is None else ()))
+
+        shape = tuple(sp["extent"] for sp in specs)
+        cube = catii.ccube([index_of(sp) for sp in specs], interacting_shape=shape)
+        sshape = tuple(e for sp in specs for e in sp["extra"])
+        ctx.count("class:pool_engaged_by_the_cube_itself" if cube.parallel else "class:sparse_serial")
+        ctx.count("cube:ccube")
+        res = numpy.asarray(cube.count())
+        ctx.evaluation({"sparse": specs, "n": n}, int(numpy.prod(sshape)) >= 2)
+        if res.shape != sshape + shape:
+            ctx.violation("shape:ccube:count:sparse", "result shape %r, expected %r" % (res.shape, sshape + shape), case)
+            continue
+        import itertools
+        per = [list(numpy.ndindex(*sp["extra"])) if sp["extra"] else [()] for sp in specs]
+        for pos in itertools.product(*per):
+            spos = tuple(i for p in pos for i in p)
+            want = numpy.asarray(catii.ccube([index_of(sp, p) for sp, p in zip(specs, pos)], interacting_shape=shape).count())
+            ctx.count("blocks_compared")
+            block = res[spos]
+            if not numpy.array_equal(numpy.isnan(block), numpy.isnan(want)) or not numpy.array_equal(block[~numpy.isnan(block)], want[~numpy.isnan(want)]):
+                ctx.violation("block-differs:ccube:count:pool=%s" % bool(cube.parallel),
+                              "%d rows, %d sub-cubes, pool engaged by the cube itself: %s; block %r = %r, cube over the 1-D slices = %r"
+                              % (n, int(numpy.prod(sshape)), bool(cube.parallel), spos, block.ravel()[:6].tolist(), want.ravel()[:6].tolist()), case)
+                break
+
+
+def autopool_xcube(ctx):
+    """An array cube with 1024 sub-cubes over 2^20 rows engages its pool by itself (rows x sub-cubes = 2^30)."""
+    import catii
+
+    rng = ctx.rng
+    n = 2 ** 20
+    dense = [rng.integers(0, 3, size=(n, 4, 4), dtype=numpy.uint8), rng.integers(0, 2, size=(n, 4, 4), dtype=numpy.uint8),
+             rng.integers(0, 3, size=(n, 4), dtype=numpy.uint8)]
+    shape = (3, 2, 3)
+    cube = catii.xcube(dense, interacting_shape=shape)
+    ctx.count("class:xcube_pool_engaged_by_the_cube_itself" if cube.parallel else "class:xcube_serial")
+    ctx.count("cube:xcube")
+    res = numpy.array(cube.count(), copy=True)            # copied the moment the call returns
+    ctx.evaluation({"autopool_xcube": int(dense[0][:64].sum())}, True)
+    if res.shape != (4, 4, 4, 4, 4) + shape:
+        ctx.violation("shape:xcube:count:autopool", "result shape %r" % (res.shape,), {"autopool": "xcube"})
+        return
+    if numpy.isnan(res).any():
+        ctx.violation("block-differs:xcube:count:autopool", "%d cells are missing although every cell has rows"
+                      % int(numpy.isnan(res).sum()), {"autopool": "xcube"})
+        return
+    for _ in range(10):
+        pos = tuple(int(x) for x in rng.integers(0, 4, size=5))
+        cols = [dense[0][:, pos[0], pos[1]], dense[1][:, pos[2], pos[3]], dense[2][:, pos[4]]]
+        flat = (cols[0].astype(numpy.int64) * 2 + cols[1]) * 3 + cols[2]
+        want = numpy.bincount(flat, minlength=18).reshape(shape)
+        ctx.count("blocks_compared")
+        if not numpy.array_equal(res[pos], want):
+            ctx.violation("block-differs:xcube:count:autopool", "block %r differs from the direct count over the 1-D slices" % (pos,),
+                          {"autopool": "xcube", "pos": pos})
+            return
+
+
+def run_shard(ctx):
+    from ..worker import run_cases
+    import sys as _sys
+
+    kind = ctx.shard.get("kind")
+    if kind == "autopool_ccube":
+        return autopool_ccube(ctx)
+    if kind == "autopool_xcube":
+        return autopool_xcube(ctx)
+    run_cases(ctx, _sys.modules[__name__])
 
 
 def tail_shape(case, agg):
